@@ -58,7 +58,7 @@ class C08(Prop):
             "negative, non-contiguous keys, changing depths; every array handed to or "
             "returned by the implementation is overwritten afterwards (aliasing probe); "
             "non-trivial = at least one shift and one write; distinct by (case, output)")
-    trusted = ["integer-valued float arrays (exact in binary64) stand for the stored vectors; "
+    trusted = ["vectors of multiples of 1/4 (exact in binary64; float64 or integer dtype) stand for the stored arrays, the model holds them as integers in units of 1/4; "
                "numpy += on equal-length vectors = elementwise Z addition"]
     assumptions = ["all vectors of one history have the same length (numpy would raise "
                    "on a shape mismatch, not modelled)"]
@@ -71,15 +71,33 @@ class C08(Prop):
             via = rng.choice(["helpers", "helpers", "eqsys"])
             nops = rng.randint(1, maxops)
             ops = []
-            vec = lambda: [rng.randint(-50, 50) for _ in range(size)]
+            # values are stored in units of 1/4 (exact in binary64); "int" vectors are
+            # whole numbers handed over as integer-dtype arrays (e.g. np.zeros(n, dtype=int)
+            # initial values), the others as float64 arrays
+            vec = lambda: [rng.randint(-200, 200) for _ in range(size)]
+            ivec = lambda: [4 * rng.randint(-50, 50) for _ in range(size)]
             if rng.random() < 0.6:
                 d = rng.randint(1, 5)
+                cur_int = False
+                int_phase = rng.random() < 0.4  # start with integer-dtype writes
                 for _ in range(nops):
                     r = rng.random()
+                    if int_phase and rng.random() < 0.15:
+                        int_phase = False
                     if r < 0.35:
-                        ops.append(["set", 0, vec()])
+                        if int_phase:
+                            ops.append(["set", 0, ivec(), "int"])
+                            cur_int = True
+                        else:
+                            ops.append(["set", 0, vec()])
+                            cur_int = False
                     elif r < 0.55:
-                        ops.append(["add", 0, vec()])
+                        # int += float raises a numpy casting error (not part of the
+                        # modelled behaviour): add integer vectors to integer slots
+                        if cur_int:
+                            ops.append(["add", 0, ivec(), "int"])
+                        else:
+                            ops.append(["add", 0, vec()])
                     elif r < 0.8:
                         ops.append(["shift", d])
                     else:
@@ -120,7 +138,10 @@ class C08(Prop):
         for o in case["ops"]:
             try:
                 if o[0] in ("set", "add"):
-                    arr = np.array(o[2], dtype=float)
+                    if len(o) > 3 and o[3] == "int":
+                        arr = np.array([x // 4 for x in o[2]], dtype=int)
+                    else:
+                        arr = np.array([x / 4.0 for x in o[2]], dtype=float)
                     try:
                         if eqs is not None:
                             eqs.set_variable_values(arr, additive=(o[0] == "add"), **{kw: o[1]})
@@ -135,8 +156,8 @@ class C08(Prop):
                         v = eqs.get_variable_values(**{kw: o[1]})
                     else:
                         v = pp.get_solution_values(name, data, **{kw: o[1]})
-                    outs.append(["val", [int(x) for x in v]])
-                    assert all(float(int(x)) == x for x in v)
+                    assert all(float(int(4 * x)) == 4 * x for x in v)
+                    outs.append(["val", [int(4 * x) for x in v]])
                     v[:] = -977.0  # aliasing probe
                 else:
                     if eqs is None:
@@ -152,7 +173,7 @@ class C08(Prop):
                 outs.append(["err", "ValueErr"])
         dump = None
         if location in data and name in data[location]:
-            dump = [[int(k), [int(x) for x in v]] for k, v in sorted(data[location][name].items())]
+            dump = [[int(k), [int(4 * x) for x in v]] for k, v in sorted(data[location][name].items())]
         return {"outs": outs, "dump": dump}
 
     def oracle(self, case, res):
